@@ -1,7 +1,7 @@
 PROP = {
     "id": "C52",
     "theorem_modules": ["Verif.Properties.C52"],
-    "min_theorems": 12,
+    "min_theorems": 13,
     "required_theorems": [
         "Verif.Properties.C52.binary",
         "Verif.Properties.C52.args",
@@ -13,6 +13,7 @@ PROP = {
         "Verif.Properties.C52.conditional",
         "Verif.Properties.C52.optional_chain",
         "Verif.Properties.C52.assign_swap",
+        "Verif.Properties.C52.vm_same_partial",
     ],
     "streams": [
         {"name": "evalorder", "driver": "drv_lang",
@@ -26,7 +27,10 @@ PROP = {
                   "evaluator: strict binary operators, argument lists, array and dictionary literals evaluate left to right, "
                   "each sub-expression exactly once; &&, ||, ??, the conditional operator and optional chaining evaluate "
                   "their right / member / argument part exactly when required; assignment and swap evaluate target "
-                  "sub-expressions (base, index) before the value, swap left target then right target then the writes. "
+                  "sub-expressions (base, index) before the value, swap left target then right target then the writes; "
+                  "vm_same_partial: on the fragment of C34.simulation_call_partial (invocations in statement position, "
+                  "logging functions, loops, recursion) the compiled program's log trace on the model stack machine is "
+                  "identical to the evaluator's. "
                   "Tied to /repo by the stream `evalorder`: generated typed programs whose sub-expressions are calls to "
                   "logging functions with ids numbered in definition order, run on the interpreter, the VM and the VM with "
                   "peephole optimisation; the model runs on the S-expression of the AST + elaboration the runtime itself "
